@@ -7,6 +7,7 @@ from ..core import AnalysisError
 from ..poly import P
 from ..symex import Ev, find_atoms, call_name, seq_items, MUTATORS
 from ..effects import Effects, alias_path, property_hook
+from .. import memo as MEMO
 from .generic import string_value, dict_items
 
 CR = "crystal/crystal.py"
@@ -61,69 +62,34 @@ def is_classmethod(fn):
 
 
 def memo_inventory(chk, cr, methods):
-    memos = {}
-    for fn in methods:
-        if is_classmethod(fn):
-            continue
-        ev = Ev(fn, cr.ctx).run()
-        tested = set()
-        for e in ev.events:
-            if e.kind == "test":
-                for a in find_atoms(e.value, lambda a: a[0] == "call" and call_name(a) == "hasattr" and a[2][0].key() == "self"):
-                    s = string_value(a[2][1])
-                    if s:
-                        tested.add(s)
-        for e in ev.events:
-            if e.kind == "call" and call_name(e.value.as_atom() or ()) == "setattr" and e.extra["args"][0].key() == "self":
-                s = string_value(e.extra["args"][1])
-                if s in tested:
-                    memos[s] = (fn.name, e.node)
-            if e.kind == "store":
-                t = e.target.as_atom()
-                if t and t[0] == "attr" and t[1].key() == "self" and t[2] in tested:
-                    memos[t[2]] = (fn.name, e.node)
-    # flags that are not derived data
-    memos = {k: v for k, v in memos.items() if not k.startswith("_have_warned")}
+    memos = {k: (g, node) for k, (g, node, kind) in MEMO.instance_memos(cr, "Crystal").items()}
     chk.need(len(memos) >= 4, f"expected >= 4 memo attributes in class Crystal, found {sorted(memos)}")
     return memos
 
 
 def invalidations(fx, cr, ev, memos):
-    """[(event index, set of memo names removed, guards)] for a method's event list (direct or through a self-call)."""
-    out = []
-    for idx, e in enumerate(ev.events):
-        if e.kind == "call":
-            cn = call_name(e.value.as_atom() or ())
-            if cn == "delattr" and e.extra["args"] and e.extra["args"][0].key() == "self":
-                s = string_value(e.extra["args"][1])
-                if s in memos:
-                    out.append((idx, {s}, e.guards))
-            elif cn == ".pop" and e.target.key() == "self.__dict__.pop":
-                s = string_value(e.extra["args"][0])
-                if s in memos:
-                    out.append((idx, {s}, e.guards))
-            elif e.target is not None and e.target.as_atom() and e.target.as_atom()[0] == "attr" and e.target.as_atom()[1].key() == "self":
-                m = e.target.as_atom()[2]
-                sub = cr.funcs.get(f"Crystal.{m}")
-                if sub is not None:
-                    sev = Ev(sub, cr.ctx).run()
-                    names = set()
-                    for (i2, ns, g) in invalidations(fx, cr, sev, memos):
-                        # inside the helper only hasattr / membership guards are acceptable
-                        if all(_benign_guard(c) for c, _ in g):
-                            names |= ns
-                    if names:
-                        out.append((idx, names, e.guards))
-        elif e.kind == "delete":
-            t = e.target.as_atom()
-            if t and t[0] == "attr" and t[1].key() == "self" and t[2] in memos:
-                out.append((idx, {t[2]}, e.guards))
-    return out
+    return MEMO.removals(cr, "Crystal", ev, memos)
 
 
 def _benign_guard(c: P) -> bool:
-    k = c.key()
-    return k.startswith("hasattr(self") or "in self.__dict__" in k or "in vars(self)" in k
+    return MEMO.benign_guard(c)
+
+
+def crystal_memo_rule(chk, rid):
+    """R14.1/R14.2 packaged for the properties that inherit the memo discipline of class Crystal (C01, C03, C04, C10, C13)."""
+    cr = chk.repo.module(CR)
+    fx = Effects(chk.repo, ATTR_TYPES)
+    methods = [m for m in cr.methods("Crystal")]
+    memos = memo_inventory(chk, cr, methods)
+    mutators = {}
+    for fn in methods:
+        if is_classmethod(fn) or fn.name == "__init__":
+            continue
+        ws = [w for w in fx.method_writes(CR, "Crystal", fn.name) if w.attr in STATE]
+        if ws:
+            mutators[fn.name] = ws
+    chk.need(len(mutators) >= 2, f"expected >= 2 state-changing methods of Crystal, found {sorted(mutators)}")
+    MEMO.check_mutators_invalidate(chk, rid, CR, "Crystal", memos, mutators, fx)
 
 
 def r14_2(chk, cr, fx, memos, mutators):
